@@ -524,7 +524,7 @@ def shard(seed_value, n):
 def check(run):
     quick = run.tier == 'quick'
     run.absorb(core.pool_map('vk.c06_grad', 'shard', [(run.seed * 1000 + i, 600 if quick else 5000) for i in range(16)]))
-    run.min_class_fraction = {'backend:torch': 0.2, 'form:multi:>': 0.03}
+    run.min_class_fraction = {'backend:torch': 0.2, 'form:multi:>': 0.015}
 
 
 def replay(case):
